@@ -28,6 +28,8 @@
 #include <tulz/threading/ThreadPool.h>
 #include <tulz/threading/Thread.h>
 
+#include "../painted.h"
+
 using verif::ev;
 
 // see pool_harness.cpp: ThreadPool deletes PooledThread objects through `Thread*` (no virtual destructor)
@@ -84,10 +86,14 @@ static bool workersFinished() {
     return true;
 }
 
+static unsigned char g_paint = 0;
+
 static void runOne(int maxThreads, int timeout, const std::vector<std::string> &ops) {
     g_submitted.clear(); g_destroyed.clear(); g_gen.clear();
     verif::g_vnow_ms = 1000000;
-    auto *pool = new tulz::ThreadPool();
+    // the pool lives in painted storage (harness/painted.h): a member a constructor forgets has a known value
+    verif::Painted<tulz::ThreadPool> poolBox(g_paint);
+    auto *pool = poolBox.get();
     {
         auto &S = verif::Sched::I();
         std::unique_lock<decltype(S.G)> lk(S.G);
@@ -159,7 +165,6 @@ static void runOne(int maxThreads, int timeout, const std::vector<std::string> &
     pool->m_pool.clear();
     for (auto *r : pool->m_queue) delete r;
     pool->m_queue.clear();
-    delete pool;
 }
 
 int main() {
@@ -185,6 +190,7 @@ int main() {
         if (mode == "seed") seed = std::stoull(rest.at(0));
         else for (auto &x : rest) script.push_back(std::stoi(x));
         verif::Sched::I().begin(mode == "seed", seed, script, pts);
+        g_paint = verif::paintFor(cfg);
         runOne(maxThreads, timeout, ops);
         verif::Sched::I().end();
         std::puts("end ok");
